@@ -472,6 +472,94 @@ def explore_kind(kind, mode, depth, class_first=False):
     return len(seen), stats["transitions"], viol, stats["skipped_by_policy"]
 
 
+def explore_same_proxy(kind, mode):
+    """the BFS above fetches a FRESH proxy for every operation, so anything a proxy remembers is invisible to it.  Here one
+    live proxy receives a, b, a again - for every operation a that leaves the initial target unchanged (an observer) and
+    every operation b - and each step is compared with the twin: a proxy must not answer from memory."""
+    env.silence_unraisable()
+    mk = KINDS[kind]
+    ops = [(l, f) for l, f in ops_for(kind) if not (l in OUT_OF_SCOPE or l in OUT_OF_SCOPE_PER_KIND.get(kind, ()) or l.startswith("cls:"))]
+    viol = []
+    stats = {"sequences": 0, "steps": 0}
+    cfg = MODES[mode]
+    if mode == "classic":
+        w = pair.World(connect_now=False)
+    else:
+        holder = Holder()
+        w = pair.World(_rpyc.VoidService(), holder, {}, cfg)
+
+    def main():
+        from rpyc.core.channel import Channel
+        if mode == "classic":
+            w.sconn = SlaveService()._connect(Channel(w.b), {})
+            w.start_server()
+            w.cconn = _rpyc.core.service.MasterService()._connect(Channel(w.a), {})
+        else:
+            w.start_server()
+        conn = w.cconn
+
+        def fetch(t, o):
+            if mode == "classic":
+                w.sconn._local_root.namespace["_t"] = t
+                w.sconn._local_root.namespace["_o"] = o
+                return conn.eval("_t"), conn.eval("_o")
+            holder.objs["t"], holder.objs["o"], holder.objs["c"] = t, o, type(t)
+            return conn.root.get("t"), conn.root.get("o")
+
+        # observers: no exception and no change of the initial state, on the twin
+        init = canon_state(kind, mk())
+        observers = []
+        for label, fn in ops:
+            tw, ow = mk(), mk()
+            r = apply_op(fn, tw, ow, tw)
+            if r[0] != "exc" and canon_state(kind, tw) == init and kind not in ("listiter", "generator", "file"):
+                observers.append((label, fn))
+        # operations whose answer on a FRESH proxy already differs from the twin's are the BFS part's business (they are
+        # reported there); this pass is about what a proxy remembers
+        differs_when_fresh = set()
+        for label, fn in ops:
+            t, tw, o, ow = mk(), mk(), mk(), mk()
+            pr, po = fetch(t, o)
+            CTX["cls"] = None
+            if apply_op(fn, pr, po, None)[:2] != apply_op(fn, tw, ow, tw)[:2]:
+                differs_when_fresh.add(label)
+            del pr, po
+        for la, fa in observers:
+            if la in differs_when_fresh:
+                continue
+            for lb, fb in ops:
+                if lb in differs_when_fresh:
+                    continue
+                t, tw, o, ow = mk(), mk(), mk(), mk()
+                pr, po = fetch(t, o)
+                stats["sequences"] += 1
+                for step, (label, fn) in enumerate(((la, fa), (lb, fb), (la, fa))):
+                    stats["steps"] += 1
+                    CTX["cls"] = None
+                    got = apply_op(fn, pr, po, None)
+                    want = apply_op(fn, tw, ow, tw)
+                    if mode != "classic" and got[0] == "exc" and got[1] == "AttributeError" and "cannot access" in got[2]:
+                        break
+                    post_t, post_tw = canon_state(kind, t), canon_state(kind, tw)
+                    if got[:2] != want[:2] or post_t != post_tw:
+                        opname = label.split(":")[0] if not label.startswith("obj:") else label.replace(":", "-")
+                        viol.append(("same-proxy:%s:op=%s:target=%s" % ("answer-differs" if got[:2] != want[:2] else "post-state-differs", opname, kind),
+                                     "mode %s, one live proxy, sequence %r step %d: proxy %r (target %r), twin %r (%r)" % (
+                                         mode, [la, lb, la], step, got[:2], post_t, want[:2], post_tw)))
+                        break
+                    if not size_ok(kind, t):
+                        break
+                del pr, po
+                if len(viol) > 10:
+                    return
+
+    sch, _, exc = pair.run(main, horizon=10 ** 7, world=w, max_steps=10 ** 8)
+    if exc is not None or sch.outcome != "done":
+        import traceback
+        viol.append(("harness:same-proxy:%s:%s" % (kind, sch.outcome), "".join(traceback.format_exception(type(exc), exc, exc.__traceback__))[-600:] if exc else ""))
+    return stats["sequences"], stats["steps"], viol
+
+
 def check_buffiter(idx, nchunks):
     env.silence_unraisable()
     viol = []
@@ -560,6 +648,18 @@ def main(tier, replay_obj=None):
             if sig not in seen:
                 seen.add(sig)
                 res.violation(sig, text, {"kind": k, "mode": m, "depth": d, "class_first": cf})
+    sp_tasks = [(k, m) for k in KINDS if k not in ("listiter", "generator", "file") for m in (("classic",) if tier == "quick" else MODES)]
+    outs = runner.pmap(explore_same_proxy, sp_tasks)
+    for (k, m), (nseq, nsteps, viol) in zip(sp_tasks, outs):
+        res.parts["same-proxy/%s/%s" % (k, m)] = {"sequences": nseq, "steps": nsteps}
+        res.transitions += nsteps
+        res.evaluations += nsteps
+        res.traces += nseq
+        seen = set()
+        for sig, text in viol:
+            if sig not in seen:
+                seen.add(sig)
+                res.violation(sig, text, {"part": "same-proxy", "kind": k, "mode": m})
     outs = runner.pmap(check_buffiter, [(i, 16) for i in range(16)])
     nb = 0
     for n, viol in outs:
